@@ -48,7 +48,7 @@ def f_basename():
 
 
 def f_parent():
-    """lexical parent of an absolute normalised path: normpath(p + '/..')"""
+    """lexical parent of an absolute normalised path: normpath(join(p, '..'))"""
     return uf("posix_parent", StringS, StringS)
 
 
@@ -696,10 +696,110 @@ def regf_modular():
     return regf(modular=True)
 
 
+# ------------------------------------------------------------------ bounded native cross-check of the axioms
+def nat_eval(t, native):
+    """evaluate a ground z3 term, interpreting the uninterpreted posix_* functions by CPython's posixpath"""
+    t = z3.simplify(t)
+    if z3.is_app(t) and t.num_args() > 0:
+        kids = [nat_eval(c, native) for c in t.children()]
+        name = t.decl().name()
+        if name in native:
+            if not z3.is_string_value(kids[0]):
+                raise ValueError(f"argument of {name} did not reduce: {kids[0]}")
+            return z3.StringVal(native[name](decode_z3_string(kids[0].as_string())))
+        return z3.simplify(t.decl()(*kids))
+    return t
+
+
+def axiom_crosscheck(tier, seed):
+    """each axiom generator AX_*(...) is instantiated with concrete strings and evaluated with the real
+    posixpath functions in place of the uninterpreted symbols (several process working directories)"""
+    import os
+    import posixpath
+    import random
+    t0 = time.time()
+    rnd = random.Random(seed)
+    paths = set()
+    for n in (1, 2, 3):
+        for combo in itertools.product(["", ".", "..", "a", "bb", "~", "c.d"], repeat=n):
+            for lead in ("", "/", "//", "///"):
+                for trail in ("", "/"):
+                    paths.add(lead + "/".join(combo) + trail)
+    paths = sorted(paths)
+    rnd.shuffle(paths)
+    paths = paths[:110] + ["", "/", "//", "///", ".", "..", "../..", "/..", "//..", "a/../..", "/a/b/../../..", "~/.ssh/authorized_keys"]
+    names = ["", ".", "..", "a", "b.txt", "..a", "...", " ", "~", "a/b", "/etc/passwd", "../x", "x/", "/"]
+    results = {}
+
+    def check(axname, facts, witness):
+        st = results.setdefault(axname, {"n": 0, "bad": None})
+        for k, f in enumerate(facts):
+            st["n"] += 1
+            v = nat_eval(f, native)
+            if not z3.is_true(v) and st["bad"] is None:
+                st["bad"] = f"{witness} clause {k}: {v}"
+
+    real_getcwd = os.getcwd
+    try:
+        for cwd in ("/", "/home/u", "/tmp/x y"):
+            os.getcwd = lambda cwd=cwd: cwd
+            native = {"posix_abspath": posixpath.abspath, "posix_basename": posixpath.basename,
+                      "posix_parent": lambda p: posixpath.normpath(posixpath.join(p, ".."))}
+            for p in paths:
+                check("AX_basename", AX_basename(S(p)), f"p={p!r} cwd={cwd!r}")
+                check("AX_abspath", AX_abspath(S(p)), f"p={p!r} cwd={cwd!r}")
+                check("AX_parent", AX_parent(S(posixpath.abspath(p))), f"p={posixpath.abspath(p)!r}")
+                # the definition of join used by the encoding against the real one (2 and 3 arguments)
+                for b in names:
+                    st = results.setdefault("z_join == posixpath.join", {"n": 0, "bad": None})
+                    st["n"] += 1
+                    got = z3.simplify(z_join(S(p), S(b)))
+                    if decode_z3_string(got.as_string()) != posixpath.join(p, b) and st["bad"] is None:
+                        st["bad"] = f"join({p!r}, {b!r})"
+                    check("AX_abspath_join", AX_abspath_join(S(p), S(b)), f"d={p!r} b={b!r} cwd={cwd!r}")
+    finally:
+        os.getcwd = real_getcwd
+    obs = []
+    for axname, st in results.items():
+        obs.append(ob(f"posixpath-axioms.{axname}", "discharged" if st["bad"] is None else "failed", "evaluation", 0.0, False,
+                      None, {"kind": "axiom-crosscheck", "src": axname, "definite": True}, smt_hash=axname,
+                      detail=f"{st['n']} ground instances evaluated against posixpath" if st["bad"] is None else st["bad"]))
+    return {"obligations": obs, "info": {"target": None, "paths": 1, "wall": round(time.time() - t0, 3)}}
+
+
 def tasks():
     out = [ContractTask(c, regf_modular if c.target.startswith("lemma:") else regf) for c in CONTRACTS]
+    out.append(FuncTask("posixpath-axioms", axiom_crosscheck, counted=False, kind="bounded-crosscheck"))
     return out
 
 
-TRUSTED = []
-ASSUMPTIONS = []
+TRUSTED = [
+    "z3/cvc5", "pyvc semantics of the Python subset (DESIGN 2.2), JSON sort for offer fields",
+    "POSIX only (os.sep == '/'): os.path.join is encoded by its definition; Windows paths are not covered",
+    "AX_basename: basename(p) contains no '/', is a suffix of p, and is all of p or preceded by '/' (= its definition)",
+    "AX_abspath: abspath(p) starts with '/', abspath(abspath(p)) == abspath(p), no trailing '/' except '/' and '//'; "
+    "abspath depends on the path only (the process working directory does not change during a call)",
+    "AX_abspath_join: for b without '/', b not in {'', '.', '..'}: abspath(join(d, b)) == join(abspath(d), b); "
+    "abspath(join(d, '')) == abspath(join(d, '.')) == abspath(d); abspath(join(d, '..')) == parent(abspath(d))",
+    "AX_parent: parent(p) = normpath(join(p, '..')) of an absolute normalised path is absolute and normalised",
+    "each AX_* is evaluated on a few thousand concrete instances against CPython's posixpath in the uncounted task "
+    "'posixpath-axioms' (bounded cross-check, not a proof)",
+    "filesystem facts assumed of the ghost state at every queried path: isdir(p) => exists(p); isfile(p) => exists(p) and "
+    "not isdir(p); an existing absolute normalised path has an existing directory as lexical parent; '/' and '//' are directories",
+    "os.remove(p): fails unless p exists and is not a directory, otherwise p is gone; may also fail (no effect); "
+    "open(p, 'wb') creates/truncates the regular file p or fails; os.rename(a, b) moves a onto b or fails; "
+    "os.chmod / os.statvfs / input() may fail; ZipFile.extract(name, path) is recorded with both arguments and the "
+    "ghost filesystem is havocked (what zipfile writes for a name that passed the check is the library's business)",
+    "humanize.naturalsize, repr, str formatting: return some str or raise TypeError/ValueError",
+]
+ASSUMPTIONS = [
+    "the working directory exists and is a directory (args.cwd is os.getcwd())",
+    "no other process changes the filesystem between the checks and the writes (symlink races are out of scope)",
+    "the anonymous tempfile.SpooledTemporaryFile used for an incoming zip archive has no name in the filesystem and is "
+    "not counted as a write location",
+    "_decide_destname on its own: with --output-file naming an existing directory, a dot name ('', '.', '..') and no "
+    "--accept-file it returns an existing directory (the output directory or its parent); _handle_file/_handle_directory "
+    "are proved never to open/return in that case (the prompt path refuses existing directories)",
+    "the loop invariant of _write_directory is stated over the ghost event trace (events before the loop, plus those of "
+    "the current iteration); the exit path carries only the events outside the loop",
+]
